@@ -220,7 +220,10 @@ class Compiler:
         for node in tree.body:
             if isinstance(node, ast.Assign) and len(node.targets) == 1 and isinstance(node.targets[0], ast.Name):
                 if isinstance(node.value, ast.Constant):
-                    fields[node.targets[0].id] = self.U.const(node.value.value)
+                    try:
+                        fields[node.targets[0].id] = self.U.const(node.value.value)
+                    except Unsupported:
+                        fields[node.targets[0].id] = self.U.const(f"<{node.value.value!r}>")
             elif isinstance(node, ast.FunctionDef):
                 methods[node.name] = node
                 node._owner_file = inspect.getsourcefile(pycls)
@@ -404,18 +407,19 @@ class Compiler:
         return self.store(ctx, s.target, (op, old, val), cur, s)
 
     def assign(self, ctx, targets, value, cur, s):
-        if len(targets) == 1 and isinstance(targets[0], ast.Tuple):
-            tgt = targets[0]
-            cur, val = self.ev(ctx, value, cur)
-            if not (isinstance(val, tuple) and val[0] == "tuple") or len(val[1]) != len(tgt.elts):
-                self.err(s, "tuple unpacking needs a statically known tuple of the same length")
-            for t, v in zip(tgt.elts, val[1]):
-                cur = self.store(ctx, t, v, cur, s)
-            return cur
         cur, val = self.ev(ctx, value, cur)
         for t in targets:
-            cur = self.store(ctx, t, val, cur, s)
+            cur = self.destructure(ctx, t, val, cur, s)
         return cur
+
+    def destructure(self, ctx, target, val, cur, s):
+        if isinstance(target, ast.Tuple):
+            if not (isinstance(val, tuple) and val[0] == "tuple") or len(val[1]) != len(target.elts):
+                self.err(s, "tuple unpacking needs a statically known tuple of the same length")
+            for t, v in zip(target.elts, val[1]):
+                cur = self.destructure(ctx, t, v, cur, s)
+            return cur
+        return self.store(ctx, target, val, cur, s)
 
     def store(self, ctx, target, val, cur, s):
         nxt = self.m.new_node()
@@ -926,6 +930,12 @@ class Compiler:
                 return self.alloc(ctx, "List", cur, node)
             if isinstance(node, ast.Dict):
                 return cur, C(self.U.const("<emptydict>"))
+        if isinstance(node, ast.Dict):
+            for v in node.values:
+                cur, _ = self.ev(ctx, v, cur)
+            return cur, C(self.U.const("<dict>"))
+        if isinstance(node, ast.Subscript):
+            return cur, C(self.U.const("<subscript>"))
         self.err(node, f"unsupported expression {type(node).__name__}")
 
     def name(self, ctx, node):
@@ -963,8 +973,16 @@ class Compiler:
                 return cur, C(self.U.const(c))
         if isinstance(node.value, ast.Name) and node.value.id == "sys" and node.attr == "platform":
             return cur, C(self.U.const("linux"))
-        cur, obj = self.ev(ctx, node.value, cur)
+        key = "attr:" + ast.unparse(node)
+        if key in self.extra_stubs:
+            return cur, self.extra_stubs[key]
         f = node.attr
+        if f in self.method_owner and not any(f in i.fields for i in self.m.classes.values()):
+            # a bound method used as a value (e.g. spawn(self.executetask, ...)); the receiver is evaluated and must
+            # be the single modelled instance of the owning class
+            cur, obj = self.ev(ctx, node.value, cur)
+            return cur, C(self.U.const(("bound", f)))
+        cur, obj = self.ev(ctx, node.value, cur)
         if f in getattr(self, "_tuple_fields", {}):
             # tuple fields are written once (at construction) in the supported code
             return cur, self._rebuild_tuple(f, self._tuple_fields[f], obj)
@@ -975,7 +993,7 @@ class Compiler:
                 return cur, self.extra_stubs[f]
             self.err(node, f"unknown field {f!r} (no modelled class assigns it)")
         e = ("fld", obj, f)
-        if self.field_immutable(f):
+        if self.field_immutable(f) or getattr(self, "pure_loads", False):
             return cur, e
         t = self.fresh(ctx.thread, "ld")
         n = self.m.new_node()
@@ -1017,7 +1035,11 @@ class Compiler:
             if name == "set" and not node.args:
                 return self.alloc(ctx, "Set", cur, node)
             if name == "await_":
-                cur, c = self.cond(ctx, node.args[0], cur)
+                self.pure_loads = True      # the condition is re-evaluated on the state, not on a snapshot
+                try:
+                    cur, c = self.cond(ctx, node.args[0], cur)
+                finally:
+                    self.pure_loads = False
                 n = self.m.new_node()
                 self.emit(ctx, cur, n, guard=c, visible=True, node=node, info="await", sync="await")
                 return n, C(NONE)
@@ -1238,8 +1260,16 @@ def p_wait(comp, ctx, node, cur):
     n = comp.m.new_node()
     comp.emit(ctx, cur, n, guard=("eq", ("ev.flag", ev), C(1)), updates=[(V(res), C(TRUE))], visible=True, info="Event.wait -> True", node=node, sync="wait")
     if not (timeout == C(NONE)):
-        comp.emit(ctx, cur, n, guard=("and", ("eq", ("ev.flag", ev), C(0)), ("ne", timeout, C(NONE))), updates=[(V(res), C(FALSE))],
+        clock = comp.m.var("G.clock", INT0)
+        comp.emit(ctx, cur, n, guard=("and", ("eq", ("ev.flag", ev), C(0)), ("ne", timeout, C(NONE))),
+                  updates=[(V(res), C(FALSE)), (V(clock), ("padd", V(clock), timeout))],
                   visible=True, kind="timeout", info="Event.wait times out", node=node, sync="wait-timeout")
+    if getattr(comp, "interruptible_thread", None) == ctx.thread:
+        # SIGINT: the main thread gets KeyboardInterrupt at its next step; while blocked that step is this wait
+        pend = comp.m.var("G.sigint_pending", INT0)
+        k = comp.m.new_node()
+        comp.emit(ctx, cur, k, guard=("ne", V(pend), C(INT0)), updates=[(V(pend), C(INT0))], visible=True, info="KeyboardInterrupt delivered in wait()", node=node, sync="interrupt")
+        comp.raise_to(ctx, k, C(comp.U.exc("KeyboardInterrupt")), node)
     return n, V(res)
 
 
